@@ -7,5 +7,5 @@ Sum(c) == c.s + c.e + c.v + c.io + c["if"] + c.a + c.f + c.q + c.o
 Init == cfg \in {c \in Vec : Sum(c) <= MaxSum \/ (\A l \in DOMAIN c : c[l] = 2)}
 Spec == Init /\ [][UNCHANGED cfg]_cfg
 R1_Dirs == SameHooksLitVar(cfg) /\ CountOK(cfg)
-Emit == PrintT(ToJson([kind |-> "dircfg", cfg |-> cfg, expect |-> [k \in Kinds |-> Expected(cfg, k)]]))
+Emit == PrintT(ToJson([kind |-> "dircfg", cfg |-> cfg, expect |-> [k \in Kinds |-> Expected(cfg, k)], merged |-> MergedExpected(cfg)]))
 =============================================================================
